@@ -53,7 +53,7 @@ def limitMargin (lo hi : Rat) (pss : List (List (Pt Rat))) : Rat :=
 /-- `fit3 lo hi  V ntab {wav chi}*  nb {wavelength}*  nb {theta}*  nb {nap {ap}* nm {nap flux*}*}*
           dmin dmax step  nsrc {nb {flag flux err}*}*`
     → `E <err>`  or
-      `V n_distances ceilMargin belowMargin  nsrc { nm { av sc chi2 bi gap clampMargin limitMargin avScale chiScale nViolatedLimits nLimits fluxCond dChi/dr dAv/dr }* }*` -/
+      `V n_distances ceilMargin belowMargin  n {logd}*  nsrc { nm { av sc chi2 bi gap clampMargin limitMargin avScale chiScale nViolatedLimits nLimits fluxCond dChi/dr dAv/dr  nb {predicted log flux}* }* }*` -/
 def opFit3 : Rd String := do
   let lo ← rat; let hi ← rat
   let v ← rat
@@ -104,11 +104,13 @@ def opFit3 : Rd String := do
         let chiScale := sumBy (fun p => (absR p.r + absR (a * p.k)) * (absR p.r + absR (a * p.k)) * p.w) ps
         let nviol := (ps.filter (fun p => (p.flag = 2 ∧ a * p.k < p.r) ∨ (p.flag = 3 ∧ p.r < a * p.k))).length
         let nlim := (ps.filter (fun p => p.flag = 2 ∨ p.flag = 3)).length
+        -- predicted log fluxes stored with the row: `(model + model_fluxes)[best]`, `model = av · av_law`
+        let pred := List.zipWith (fun k lf => a * k + lf) ks (lfs.getD bi [])
         let dchi := sumBy (fun p => 2 * (absR p.r + absR (a * p.k)) * p.w) ps
         let dav := sumBy (fun p => absR (p.k * p.w)) ps / sumBy (fun p => p.k * p.k * p.w) ps
-        s!"{showRat a} {showRat s} {showRat c} {bi} {showRat gap} {showRat clampM} {showRat limM} {showRat avScale} {showRat chiScale} {nviol} {nlim} {showRat fcond} {showRat dchi} {showRat dav}")
+        s!"{showRat a} {showRat s} {showRat c} {bi} {showRat gap} {showRat clampM} {showRat limM} {showRat avScale} {showRat chiScale} {nviol} {nlim} {showRat fcond} {showRat dchi} {showRat dav} {showRats pred}")
       " ".intercalate (toString outM.length :: outM))
-    pure (" ".intercalate (["V", toString dists.length, showRat ceilM, showRat belowM, toString outS.length] ++ outS))
+    pure (" ".intercalate (["V", toString dists.length, showRat ceilM, showRat belowM, showRats logd, toString outS.length] ++ outS))
 
 /-- `grid dmin dmax step` → `n ceilMargin  n {log10 d}*  n {d}*` -/
 def opGrid : Rd String := do
